@@ -41,7 +41,7 @@ def _minors(ctx, exe, quick):
             raise RuntimeError("minors self-test failed: walk %s vs plain determinants %s" % (fin, brute))
         ctx.add("selftest_minors_cross_checked", int(brute["minors"]))
 
-    for mx in ("cauchy", "power", "power255ref"):
+    for mx in ("power", "power255ref", "cauchy"):
         colsk = QUICK_COLSK[mx] if quick else [255 if mx == "power255ref" else 251] * NROWS[mx]
         if _left(ctx) < 5:
             ctx.cap("time: minors of %s not run" % mx)
@@ -61,8 +61,6 @@ def _minors(ctx, exe, quick):
                 if d["complete"] != "1":
                     ctx.cap("time: minors %s k=%d incomplete (%d of %d; see MINORS_R lines: per row subset the first columns done)"
                             % (mx, kk, n, want))
-                if quick and int(d["cols"]) < (255 if mx == "power255ref" else 251):
-                    ctx.cap("quick tier: %s minors with k=%d only over the first %s columns" % (mx, kk, d["cols"]))
             elif k == "MINORS_R":
                 if int(d["minors"]):
                     ctx.nontrivial(("minors", mx, d["k"], d["rows"], d["firstcols_done"]))
@@ -112,8 +110,9 @@ def _dec(ctx, exe, quick):
                                     "one_of_them": {"failed_data": [0, 3, 7], "ip": [1, 2, 5]} if d["fn"] != "raid_rec" else {"np": 4, "failed": [1, 33, 35]}})
                 elif k == "SKIPPED":
                     notrun.append("skipped:%s/nd=%s/size=%s/%s/mode=%d" % (d["fn"], d["nd"], d["size"], d["family"], mode))
-            if quick and not pairs:
-                ctx.cap("quick tier: nd in {%s}: only sets drawn from the boundary alphabet (all-pairs part skipped)" % nds)
+            ctx.set("decoder_bounds/mode%d/nd{%s}" % (mode, nds),
+                    "every failure set for nd<=%d; above: %s every set of size 3..6 over the boundary alphabet {0,1,31,32,33,nd-2,nd-1} (U parities); "
+                    "sizes %s; families %s" % (fullmax, "all sets of size <=2 and" if pairs else "sets of size <=2 and", DEC_SIZES, fams))
     if notrun:
         ctx.set("decoder_items_not_completed", notrun)
         ctx.cap("time: %d decoder items skipped or cut short, listed in decoder_items_not_completed; first: %s"
